@@ -25,6 +25,10 @@
 (*              dup (block b once more at the end)  swap (b and b+1)       *)
 (*   v  variant: version: "other" | "flip" (2<->3);  count: "less"|"more"; *)
 (*               csize: "big" | "any";  reforge: "cutstream" | "biglen";    *)
+(*               crc: "any" | "zero" | "ones" (the field set to a special   *)
+(*               value a lenient reader might take for "no checksum");     *)
+(*               payload: "any" | "literal" (a flip that leaves the        *)
+(*               compressed stream decodable: only the checksum can tell); *)
 (*               otherwise "any"                                           *)
 (*                                                                         *)
 (* Read(c) is the design-level reader evaluated on the damaged image,      *)
@@ -57,13 +61,15 @@ Variants(w) == CASE w = "version" -> {"other", "flip"}
                  [] w = "count" -> {"less", "more"}
                  [] w = "csize" -> {"big", "any"}
                  [] w = "reforge" -> {"cutstream", "biglen"}
+                 [] w = "crc" -> {"any", "zero", "ones"}
+                 [] w = "payload" -> {"any", "literal"}
                  [] OTHER -> {"any"}
 
 \* the single damages that make sense for a shape
 Damages(s) ==
      {[w |-> w, b |-> 0, v |-> v] : w \in {"magic", "version", "ignored", "namelen"}, v \in {"other", "flip", "any"}}
   \cup (IF s.named /\ s.ver = 3 THEN {[w |-> "name", b |-> 0, v |-> "any"], [w |-> "cutname", b |-> 0, v |-> "any"]} ELSE {})
-  \cup {[w |-> w, b |-> b, v |-> v] : w \in BlockFields \cup BlockCuts, b \in 1..s.n, v \in {"less", "more", "big", "any", "cutstream", "biglen"}}
+  \cup {[w |-> w, b |-> b, v |-> v] : w \in BlockFields \cup BlockCuts, b \in 1..s.n, v \in {"less", "more", "big", "any", "cutstream", "biglen", "zero", "ones", "literal"}}
   \cup {[w |-> w, b |-> 0, v |-> "any"] : w \in {"cutfh", "appendshort", "appendlong", "garbage"}}
   \cup {[w |-> "dup", b |-> b, v |-> "any"] : b \in 1..s.n}
   \cup {[w |-> "swap", b |-> b, v |-> "any"] : b \in 1..(s.n - 1)}
